@@ -279,11 +279,10 @@ example :
     (variant p vs).duration = some 12 ∧ ((variant p vs).objs.map fun c => (c.orig, c.start, c.refs)) =
       [(0, 2, [[none]]), (1, 4, [[none]]), (1, 8, [[none]])] := by decide
 
-/-- Ids on request (`update_ids`): a note with an id gets the suffix `-k` where `k` is its rank (from 1) among
-the notes with the same id ordered by onset; nothing else changes.
-PARTIAL: that this rank is the number of the visit of the note's segment (for parts with unique ids) is not
-proved here; it is compared with the implementation on every case and checked by the oracle. -/
-theorem ids_suffixed_partial (out : List OObj) (pos : Nat) (c : OObj) (h : (enum 0 out)[pos]? = some (pos, c)) :
+/-- Ids on request (`update_ids`), what the code computes: a note with an id gets the suffix `-k` where `k` is its
+rank (from 1) among the notes with the same id ordered by onset; nothing else changes.  That this rank is the
+number of the visit of the note's segment is `ids_suffixed` (Props/C09Ext.lean). -/
+theorem ids_suffixed_rank (out : List OObj) (pos : Nat) (c : OObj) (h : (enum 0 out)[pos]? = some (pos, c)) :
     ∃ c', (suffixIds out)[pos]? = some c' ∧
       c'.orig = c.orig ∧ c'.visit = c.visit ∧ c'.kind = c.kind ∧ c'.start = c.start ∧ c'.stp = c.stp ∧
       c'.payload = c.payload ∧ c'.refs = c.refs ∧
@@ -326,14 +325,6 @@ theorem max_min_counts (flags : List Bool) (i : Nat) (b : Bool) (h : flags[i]? =
     (maxPath 0 flags).count i = (if b then 2 else 1) ∧ (minPath 0 flags).count i = 1 :=
   max_min_counts_aux flags 0 i b (by simpa using h) (Nat.zero_le _)
 
-/-- PARTIAL (finite table): that `add_segments` produces exactly these chain graphs is established by
-evaluation for every layout of up to 4 sections on a grid (every subset of sections repeated, no two
-unrepeated sections adjacent since such sections form one segment), not for symbolic boundary times;
-the correspondence compares the segment table on every generated layout. -/
-theorem simple_repeats_layout_partial :
-    ∀ flags ∈ flagTable, mkSegments (gridLayout flags) = some (chainGraph flags (gridTys flags) (gridTimes flags)) := by
-  decide +kernel
-
 /-- One repeat with endings 1..k, one number per bracket, ANY k ≥ 1, with or without music before the repeat and
 after the last ending: on the segment table of that shape (the section offers the brackets in order, every
 bracket but the last jumps back to the section, the last one goes on) the maximal unfolding is the single path
@@ -355,25 +346,6 @@ theorem voltas_pass_order (pre post : Bool) (k i : Nat) (h : i < k) :
 -- non-vacuity: four endings after one bar of lead-in
 example : getPaths (voltaGraph true 4 false (fun _ => .dflt) (fun _ => (0, 0))) false true true 12 =
     some [[0, 1, 2, 1, 3, 1, 4, 1, 5]] := by decide
-
-/-- PARTIAL (finite table): `add_segments` builds exactly the table `voltaGraph` for the layouts with k ≤ 3
-single-number brackets on a grid (with/without lead-in and rest); symbolic times and k > 3 are covered by the
-correspondence only. -/
-theorem voltas_layout_partial :
-    ∀ c ∈ voltaSingles,
-      mkSegments (voltaLayout c) = some (voltaGraph c.pre c.mult.length c.post gridVoltaTy (gridVoltaTm c.pre)) := by
-  decide +kernel
-
-/-- One repeat with endings 1..k (k ≤ 3, brackets carrying one or two numbers, with or without music before
-the repeat and after the last ending): the maximal unfolding plays the section once per ending number, taking
-on pass i the bracket that carries number i, the minimal one plays it once with the last bracket.
-PARTIAL (finite table): proved by evaluating `mkSegments` and `getPaths` on every such layout on a grid, not
-for symbolic times or k > 3. -/
-theorem voltas_upto3_partial :
-    ∀ c ∈ voltaTable,
-      (mkSegments (voltaLayout c)).bind (fun g => getPaths g false true true 200) = some [voltaMax c] ∧
-      (mkSegments (voltaLayout c)).bind (fun g => getPaths g true false true 200) = some [voltaMin c] := by
-  decide +kernel
 
 /-- No repeat structure: one segment, the single path `[A]`. -/
 theorem no_repeats_single_path (first last : Int) (h : first < last) (nr ar il : Bool) (fuel : Nat) :
